@@ -15,7 +15,7 @@ import (
 )
 
 func init() {
-	register(&Rule{Name: "ARITH.GUARD", Props: []string{"C10", "C14", "C15"}, Floor: 10,
+	register(&Rule{Name: "ARITH.GUARD", Props: []string{"C10", "C14", "C15", "C01"}, Floor: 10,
 		Doc: "no silent wrap in Number / range / enum arithmetic: conversions, negations, narrowings and unsigned add/mul are guarded, bounded by provenance, or justified",
 		Run: ruleArithGuard})
 	register(&Rule{Name: "RANGE.PIPE", Props: []string{"C10"}, Floor: 5,
